@@ -5,6 +5,7 @@
 import Driver.Common
 import GivaroModel.Model.Poly
 import GivaroModel.Model.PolyInterp
+import GivaroModel.Model.PolyMore
 import GivaroModel.Spec.PolySpec
 -- @driver-mode poly Driver.Poly.polyLine
 namespace Driver.Poly
@@ -126,11 +127,13 @@ def polyCase (thr : Nat) (key : String) (a : Array String) (r : Array String) : 
   | "vdiv" => do
     let v ← S 0; let A ← P 1; let q ← RP 0
     if (norm A).isEmpty then pure { pre := false, spec := true } else
-    pure { spec := chkQuo [v] A q.1 && degOk q }
+    let m := Givaro.Model.PolyMore.valDiv v A
+    pure { spec := chkQuo [v] A q.1 && degOk q, model := eqv m q.1, info := renderPoly (norm m) }
   | "vmod" => do
     let v ← S 0; let A ← P 1; let q ← RP 0
     if (norm A).isEmpty then pure { pre := false, spec := true } else
-    pure { spec := chkRem [v] A q.1 && degOk q }
+    let m := Givaro.Model.PolyMore.valMod v A
+    pure { spec := chkRem [v] A q.1 && degOk q, model := eqv m q.1, info := renderPoly (norm m) }
   -- fused forms
   | "axpy" => do let A ← P 0; let X ← P 1; let Y ← P 2
                  pure (exact1 (← RP 0) (sadd (smul A X) Y) (some (Givaro.Model.Poly.axpy thr A X Y)))
@@ -290,40 +293,61 @@ def polyCase (thr : Nat) (key : String) (a : Array String) (r : Array String) : 
     pure { spec := specOk, model := modelOk }
   | "areequal" => do
     let A ← P 0; let B ← P 1; let e ← r[0]? >>= parseHexInt; let ne ← r[1]? >>= parseHexInt
-    pure { spec := (e != 0) == eqv A B && (ne != 0) == !(eqv A B), model := (e != 0) == Givaro.Model.Poly.areEqual A B }
+    pure { spec := (e != 0) == eqv A B && (ne != 0) == !(eqv A B),
+           model := (e != 0) == Givaro.Model.Poly.areEqual A B && (ne != 0) == Givaro.Model.PolyMore.areNEqual A B }
   | "getentry" => do
     let A ← P 0; let i ← N 1; let c ← r[0]? >>= FieldIO.parse
     if i < 0 then pure { pre := false, spec := true } else
     pure { spec := c = coeff A i.toNat, model := c = Givaro.Model.Poly.getEntry i.toNat A }
   -- constructors / assignments
-  | "init0" => do pure (exact1 (← RP 0) ([] : List K))
-  | "initv" | "assignv" => do let v ← S 0; pure (exact1 (← RP 0) [v])
-  | "initl3" => do let x ← S 0; let y ← S 1; let z ← S 2; pure (exact1 (← RP 0) [x, y, z])
-  | "initdeg" => do let d ← N 0; pure (exact1 (← RP 0) (zeros d.toNat ++ [(1 : K)]))
-  | "initdv" | "assigndv" => do let d ← N 0; let v ← S 1; pure (exact1 (← RP 0) (zeros d.toNat ++ [v]))
+  | "init0" => do pure (exact1 (← RP 0) ([] : List K) (some Givaro.Model.PolyMore.init0))
+  | "initv" => do let v ← S 0; pure (exact1 (← RP 0) [v] (some (Givaro.Model.PolyMore.initVal v)))
+  | "assignv" => do let v ← S 0; pure (exact1 (← RP 0) [v] (some (Givaro.Model.PolyMore.assignVal v)))
+  | "initl3" => do let x ← S 0; let y ← S 1; let z ← S 2
+                   pure (exact1 (← RP 0) [x, y, z] (some (Givaro.Model.PolyMore.initList [x, y, z])))
+  | "initdeg" => do let d ← N 0; pure (exact1 (← RP 0) (zeros d.toNat ++ [(1 : K)]) (some (Givaro.Model.PolyMore.initDeg d.toNat)))
+  | "initdv" | "assigndv" => do
+    let d ← N 0; let v ← S 1
+    pure (exact1 (← RP 0) (zeros d.toNat ++ [v]) (some (Givaro.Model.PolyMore.initDegVal d.toNat v)))
   | "assign" => do let A ← P 0; pure (exact1 (← RP 0) A (some (Givaro.Model.Poly.assign A)))
   | "toscalar" | "convert" => do
     let A ← P 0; let c ← r[0]? >>= FieldIO.parse
-    pure { spec := c = coeff A 0 }
+    pure { spec := c = coeff A 0, model := c = Givaro.Model.PolyMore.toScalar A }
   | "observe2" => do
     let A ← P 0
     let mo ← r[0]? >>= parseHexInt; let un ← r[1]? >>= parseHexInt; let vl ← r[2]? >>= parseHexInt; let dg ← r[3]? >>= parseHexInt
     let An := norm A
     let valSpec : Int := match An.findIdx? (fun c => !(decide (c = 0))) with | some i => (i : Int) | none => -1
-    pure { spec := (mo != 0) == decide (An = [-(1 : K)]) && (un != 0) == decide (sdeg A = 0) && vl == valSpec && dg == sdeg A }
+    pure { spec := (mo != 0) == decide (An = [-(1 : K)]) && (un != 0) == decide (sdeg A = 0) && vl == valSpec && dg == sdeg A,
+           model := (mo != 0) == Givaro.Model.PolyMore.isMOne A && (un != 0) == Givaro.Model.PolyMore.isUnit A &&
+                    vl == Givaro.Model.PolyMore.val A && dg == Givaro.Model.Poly.degree A }
   | "setentry" => do
     let A ← P 0; let c ← S 1; let i ← N 2
     if i < 0 then pure { pre := false, spec := true } else
     let L := max A.length (i.toNat + 1)
     let padded := (A ++ zeros L).take L
-    pure (exact1 (← RP 0) (padded.set i.toNat c))
+    pure (exact1 (← RP 0) (padded.set i.toNat c) (some (Givaro.Model.PolyMore.setEntry A c i.toNat)))
   | "modinv" | "modv" => do
     let _A ← P 0; let v ← S 1
-    if v = 0 then pure { pre := false, spec := true } else pure (exact1 (← RP 0) ([] : List K))
+    if v = 0 then pure { pre := false, spec := true } else
+    pure (exact1 (← RP 0) ([] : List K) (some (Givaro.Model.PolyMore.modVal _A v)))
   | "inv" | "invin" => do
     let A ← P 0
-    if sdeg A != 0 then pure { pre := false, spec := true } else pure (exact1 (← RP 0) [1 / coeff (norm A) 0])
-  | "shiftin" => do let A ← P 0; let sft ← N 1; pure (exact1 (← RP 0) (zeros sft.toNat ++ A))
+    if sdeg A != 0 then pure { pre := false, spec := true } else
+    pure (exact1 (← RP 0) [1 / coeff (norm A) 0] (some (Givaro.Model.PolyMore.inv thr A)))
+  | "shiftin" => do
+    let A ← P 0; let sft ← N 1
+    if sft < 0 then pure { pre := false, spec := true } else
+    pure (exact1 (← RP 0) (zeros sft.toNat ++ A) (some (Givaro.Model.PolyMore.shiftin A sft.toNat)))
+  | "random" => do
+    -- random / nonzerorandom, overload `ov` in {0, s, d, b}: the draws are not determined (C17); the shape is: exactly
+    -- target+1 coefficients, leading one non-zero, degree = target (`random_shape`, `randomTarget`)
+    let ov ← a[0]?; let _nz ← N 1; let arg ← N 2; let q ← RP 0
+    if arg > 4096 || arg < -4096 then pure { pre := false, spec := true } else
+    let tgt := Givaro.Model.PolyMore.randomTarget ov arg
+    let want : Int := if tgt < 0 then -1 else tgt
+    pure { spec := q.1 = norm q.1 && sdeg q.1 == want && degOk q,
+           model := (q.1.length : Int) == want + 1, info := toString want }
   | "modpowxin" => do
     let A ← P 0; let l ← N 1
     if l < 0 then pure { pre := false, spec := true } else
